@@ -55,7 +55,7 @@ def run(ctx, model):
     from props import transcripts as _tr
     _lines, _pend = [], []
     _c14.run_route_after(ctx, model, _lines, _pend, "C09",
-                         [("10.0.0.1/bp/0", [(1, 0)]), ("10.0.0.1/bp/1/enet/10.11.12.13/bp/0", [(1, 1), (2, "10.11.12.13"), (1, 0)])])
+                         [("10.0.0.1/bp/0", [(1, 0)]), ("10.0.0.1/bp/1/enet/10.11.12.13/bp/0", [(1, 1), (2, "10.11.12.13"), (1, 0)]), ("10.0.0.1", [])])
     _tr.flush(ctx, model, _lines, _pend)
     import pycomm3
     from pycomm3.cip import data_types as dt
